@@ -612,7 +612,7 @@ Definition powmod (e0red : bool) (P : poly) (n : N) (U0 : poly) : poly :=
   let U := setdegree U0 in                  (* mod(puiss,P,U) strips P and U in place before the loop *)
   match n with
   | N0 => if e0red then setdegree (mod_ [I_] U) else setdegree (assign [I_])
-  | Npos p => setdegree (powmod_pos (assign [I_]) (mod_ P U) U p)
+  | Npos p => setdegree (powmod_pos (if e0red then mod_ [I_] U else assign [I_]) (mod_ P U) U p)     (* W starts from mod(W,one,U) *)
   end.
 
 (* isDivisor(P,Q): Q | P *)
@@ -766,92 +766,5 @@ Definition ZpDom (p : Z) : Dom Z :=
         (fun a => (- a) mod p) (fun a => if a =? 0 then 0 else zinv a p)
         (fun a => a =? 0).
 
-(* ---------------- Z-level wrappers extracted for the correspondence run ---------------- *)
-Definition zp_setdegree p := setdegree (ZpDom p).
-Definition zp_degree p := degree (ZpDom p).
-Definition zp_leadcoef p := leadcoef (ZpDom p).
-Definition zp_isZero p := isZero (ZpDom p).
-Definition zp_areEqual p := areEqual (ZpDom p).
-Definition zp_assign p := assign (ZpDom p).
-Definition zp_monomial p := monomial (ZpDom p).
-Definition zp_eval p := eval (ZpDom p).
-Definition zp_diff p := diff (ZpDom p).
-Definition zp_reverse p := reverse (ZpDom p).
-Definition zp_add p := add_pub (ZpDom p).
-Definition zp_neg p := neg (ZpDom p).
-Definition zp_sub p := sub_pub (ZpDom p).
-Definition zp_subin p := subin (ZpDom p).
-Definition zp_add_s p := add_s (ZpDom p).
-Definition zp_addin_s p := addin_s (ZpDom p).
-Definition zp_sub_s p := sub_s (ZpDom p).
-Definition zp_subin_s p := subin_s (ZpDom p).
-Definition zp_s_sub p := s_sub (ZpDom p).
-Definition zp_mul_s p := mul_s (ZpDom p).
-Definition zp_div_s p := div_s (ZpDom p).
-Definition zp_mul p := mul (ZpDom p).
-Definition zp_stdmul p := stdmul (ZpDom p).
-Definition zp_karamul p := karamul (ZpDom p).
-Definition zp_mulin p := mulin (ZpDom p).
-Definition zp_sqr p := sqr (ZpDom p).
-Definition zp_invmodpowx p := invmodpowx (ZpDom p).
-Definition zp_div p := div (ZpDom p).
-Definition zp_divmod p := divmod (ZpDom p).
-Definition zp_divmodin p := divmodin (ZpDom p).
-Definition zp_mod p := mod_ (ZpDom p).
-Definition zp_modin p := modin (ZpDom p).
-Definition zp_pdivmod p := pdivmod (ZpDom p).
-Definition zp_pmod p := pmod (ZpDom p).
-Definition zp_gcd p := gcd (ZpDom p).
-Definition zp_gcdext p := gcdext (ZpDom p).
-Definition zp_invmod p := invmod (ZpDom p).
-Definition zp_invmodunit p := invmodunit (ZpDom p).
-Definition zp_lcm p := lcm (ZpDom p).
-Definition zp_pow p := pow (ZpDom p).
-Definition zp_powmod p := powmod (ZpDom p).
-Definition zp_axpy p := axpy (ZpDom p).
-Definition zp_axpy_s p := axpy_s (ZpDom p).
-Definition zp_axpyin p := axpyin (ZpDom p).
-Definition zp_maxpy p := maxpy (ZpDom p).
-Definition zp_maxpyin p := maxpyin (ZpDom p).
-Definition zp_maxpyin_s p := maxpyin_s (ZpDom p).
-Definition zp_axmy p := axmy (ZpDom p).
-Definition zp_axmy_s p := axmy_s (ZpDom p).
-Definition zp_axmyin p := axmyin (ZpDom p).
-Definition zp_axmyin_s p := axmyin_s (ZpDom p).
-Definition zp_addin p := addin (ZpDom p).
-Definition zp_isDivisor p := isDivisor (ZpDom p).
-Definition zp_modpowx p := modpowx (ZpDom p).
-Definition zp_div_sp p := div_sp (ZpDom p).
-Definition zp_mod_sp p := mod_sp (ZpDom p).
-Definition zp_mul_trunc p := mul_trunc (ZpDom p).
-Definition zp_power_compose p := power_compose (ZpDom p).
-Definition zp_interpolate p := interpolate (ZpDom p).
-Definition zp_crt_toring p := crt_toring (ZpDom p).
-Definition zp_crt_torns p := crt_torns (ZpDom p).
-
-(* the protected range helpers driven directly (harness: struct Open, variants named r.xxx); a, b = sizes of the pads around the
-   ranges inside their containers (only sqrrec looks at the container: its temporary has P.size() entries) *)
-Definition zp_shiftin p := shiftin (ZpDom p).
-Definition zp_getEntry p := getEntry (ZpDom p).
-Definition zp_setEntry p := setEntry (ZpDom p).
-Definition zp_val p := val (ZpDom p).
-Definition zp_maxpy_s p := maxpy_s (ZpDom p).
-Definition zp_mod_ps p := mod_ps (ZpDom p).
-Definition zp_midmul p := midmul (ZpDom p).
-Definition zp_stdmidmul p := stdmidmul (ZpDom p).
-Definition zp_karamidmul p := karamidmul (ZpDom p).
-Definition zp_midmul_raw p k (P Q : list Z) := midmul_r (ZpDom p) (length P) k P Q.
-Definition zp_stdmidmul_raw p (P Q : list Z) := stdmidmul_r (ZpDom p) P Q.
-Definition zp_karamidmul_raw p k (P Q : list Z) := karamidmul_body (ZpDom p) (midmul_r (ZpDom p) (length P) k) P Q.
-Definition zp_mul_r p k (n : nat) (P Q : list Z) := mul_r (ZpDom p) (length P) k n P Q.
-Definition zp_stdmul_r p (n : nat) (P Q : list Z) := stdmul_r (ZpDom p) n P Q.
-Definition zp_karamul_r p k (n : nat) (P Q : list Z) := karamul_body (ZpDom p) (mul_r (ZpDom p) (length P) k) n P Q.
-Definition zp_sqr_r p k s (P : list Z) (a b : nat) :=
-  sqr_r (ZpDom p) (length P) k s (a + length P + b) (2 * length P - 1) P.
-Definition zp_stdsqr_r p (P : list Z) := stdsqr_r (ZpDom p) (2 * length P - 1) P.
-Definition zp_sqrrec_r p k s (P : list Z) (a b : nat) :=
-  let cP := (a + length P + b)%nat in
-  sqrrec_body (ZpDom p) (sqr_r (ZpDom p) (length P) k s cP) (mul_r (ZpDom p) (length P) k) cP (2 * length P - 1) P.
-Definition zp_subin_range p (R P : list Z) := subin_range (ZpDom p) R P.
-Definition zp_subin_grow p (R P : list Z) := setdegree (ZpDom p) (sub (ZpDom p) R P).
-Definition zp_subin_at p (R P : list Z) (off : nat) := subshift (ZpDom p) R off P.
+(* the Z-level wrappers extracted for the correspondence run are in Fp.v (they run over FpDom, the subset-type instance for
+   which the field laws are proved; ZpDom above is kept as the plain-integer description of the same arithmetic) *)
